@@ -163,6 +163,12 @@ class Executor:
             return sv
         if ty is ANY:
             return SV(ANY, fresh('any', ANY.sort()))
+        if sv.t is ANY and not isinstance(ty, TFun):
+            # a value of unknown shape used where a type is declared: an arbitrary value of that type
+            v = fresh_sv(ty, 'from_any')
+            if st is not None:
+                st.type_facts(v)
+            return v
         if isinstance(ty, TFun) and (isinstance(sv.t, TFun) or sv.t is ANY):
             return SV(ty, fresh('fn', ty.sort()))     # function values are opaque: only their identity matters
         if ty is REAL and sv.t is INT:
@@ -388,6 +394,10 @@ class Executor:
             return [Res(s_bad, exc='TypeError', node=node)] + self.getitem(SV(t.t, t.dt.v(c.z)), k, s_ok, node)
         if t is NONE:
             return [Res(s.copy().note('L%s: subscript on None' % node.lineno), exc='TypeError', node=node)]
+        if t is ANY:
+            # a value of unknown shape: the subscript yields some value or raises (TypeError / KeyError / IndexError)
+            return [Res(s.copy().note('L%s: subscript on a value of unknown shape raises' % node.lineno), exc='Exception', node=node),
+                    Res(s, SV(ANY, fresh('item', ANY.sort())))]
         raise Unbound('subscript on %s (line %s)' % (t, node.lineno))
 
     def lit_key(self, k):
